@@ -685,6 +685,9 @@ pub fn extreme_values() -> Vec<u64> {
         // ~0.3 in both widths (the in-between probability used by the grid)
         0x4CCC_CCCC_4CCC_CCCC,
         0x4CCC_CD00_4CCC_CD00,
+        // the far positive tail of a normal draw (ziggurat layer 0, u close to +1): with the heavy-tailed
+        // price distributions the sampled distance then reaches past either end of the price axis
+        0xFFFF_FFFF_FFFF_FF00,
     ]
 }
 
